@@ -17,7 +17,7 @@ static std::string CheckRow(const UniValue& row)
     for (size_t i = 0; i < ins.size(); ++i) {
         CTxIn in;
         const int p = ins[i].getInt<int>();
-        if (p == 0) in.prevout.SetNull(); else in.prevout = COutPoint(Txid::FromUint256(uint256{(uint8_t)p}), 7);
+        if (p == 0) in.prevout.SetNull(); else in.prevout = COutPoint(Txid::FromUint256(uint256{(uint8_t)(p == 3 ? 3 : 1)}), p == 2 ? 8 : 7);
         { std::vector<unsigned char> b(i == 0 ? row["cbLen"].getInt<int>() : 2, 0x51); in.scriptSig = CScript(b.begin(), b.end()); }
         mtx.vin.push_back(in);
     }
